@@ -19,16 +19,35 @@ Lemma covers_nil : covers [] [].
 Proof. intros y a []. Qed.
 
 Lemma vwanted_vlocal d l :
+  is_container d = true ->
   vwanted lit re_search tm mt o d l ->
   exists k l0 r0 pre tgt, l = (l0 ++ [r0])%list /\ vreach mt o [] d l0 pre tgt /\
                           vlocal lit re_search mt tm o pre tgt r0 k.
 Proof.
-  intros [[Hv [s [[l0 [r0 [pre [tgt [-> [R P]]]]]] [Hl Hs]]]]|[[Hk [kn [[l0 [r0 [pre [tgt [-> [R P]]]]]] Hs]]]
+  intros Hc [[Hv [s [[[l0 [r0 [pre [tgt [-> [R P]]]]]]|Hr] [Hl Hs]]]]|[[Hk [kn [[l0 [r0 [pre [tgt [-> [R P]]]]]] Hs]]]
                                                           |[m [[l0 [r0 [pre [tgt [-> [R P]]]]]] Hs]]]].
   - exists HValue, l0, r0, pre, tgt. split; auto. split; auto. simpl. split; auto. exists s. split; auto. split; auto.
     apply satb_of; auto.
+  - exfalso. eapply container_not_root; eauto.
   - exists HKey, l0, r0, pre, tgt. split; auto. split; auto. simpl. split; auto. exists kn. split; auto. apply satb_of; auto.
   - exists HMember, l0, r0, pre, tgt. split; auto. split; auto. simpl. exists m. split; auto. apply satb_of; auto.
+Qed.
+
+Lemma vreach_leaf0 i v pre l pre' m : vreach mt o pre (NLeaf i v) l pre' m -> l = [] /\ m = NLeaf i v.
+Proof. intros H. inversion H; subst. auto. Qed.
+
+(* on a lone-scalar document only the root can be wanted *)
+Lemma vwanted_leaf i v l :
+  vwanted lit re_search tm mt o (NLeaf i v) l ->
+  l = [] /\ o_values o = true /\ null_doc (NLeaf i v) = false /\ satb lit re_search tm (NLeaf i v) = true.
+Proof.
+  intros [[Hv [s [[[l0 [r0 [pre [tgt [-> [R P]]]]]]|[-> [-> [_ Hn]]]] [Hl Hs]]]]|[[Hk [kn [[l0 [r0 [pre [tgt [-> [R P]]]]]] Hs]]]
+                                                          |[m [[l0 [r0 [pre [tgt [-> [R P]]]]]] Hs]]]].
+  - destruct (vreach_leaf0 _ _ _ _ _ _ R) as [_ ->].
+    destruct P as [[i0 [els [idx [H _]]]]|[i0 [kvs [pos [k [H _]]]]]]; discriminate.
+  - repeat split; auto. apply satb_of; auto.
+  - destruct (vreach_leaf0 _ _ _ _ _ _ R) as [_ ->]. destruct P as [i0 [kvs [pos [v0 [H _]]]]]. discriminate.
+  - destruct (vreach_leaf0 _ _ _ _ _ _ R) as [_ ->]. destruct P as [i0 [els [j [H _]]]]. discriminate.
 Qed.
 
 (* every visible satisfying place is reported, or lies beneath a reported matching key *)
@@ -38,14 +57,19 @@ Theorem alias_complete d res :
   forall l, vwanted lit re_search tm mt o d l ->
   exists h, In h res /\ prefix (h_loc h) l /\ (h_loc h = l \/ (h_kind h = HKey /\ o_keys o = true)).
 Proof.
-  intros Ha Hx Hc E l W. unfold search_doc in E.
-  destruct (search_for_paths lit re_search mt (scan_for_anchors d []) tm sp o d "" [] []) as [r| |] eqn:Es;
-    simpl in E; try discriminate. inversion E; subst; clear E.
-  destruct (vwanted_vlocal _ _ W) as [k [l0 [r0 [pre [tgt [-> [R L]]]]]]].
-  destruct (vreach_complete lit re_search mt _ tm sp o Ha Hx (anc_occs d) Hc _ _ _ _ _ R r0 k L "" [] [] r
-                            (incl_refl _) agree_nil Es) as [h [p [Hin [El [Hp Hd]]]]].
-  simpl in El. exists h. split; auto. rewrite El. split; auto.
-  destruct Hd as [[-> _]|Hd]; auto.
+  intros Ha Hx Hc E l W. destruct (is_container d) eqn:Ec.
+  - unfold search_doc in E.
+    destruct (search_for_paths lit re_search mt (scan_for_anchors d []) tm sp o d "" [] []) as [r| |] eqn:Es;
+      simpl in E; try discriminate. inversion E; subst; clear E.
+    destruct (vwanted_vlocal _ _ Ec W) as [k [l0 [r0 [pre [tgt [-> [R L]]]]]]].
+    destruct (vreach_complete lit re_search mt _ tm sp o Ha Hx (anc_occs d) Hc _ _ _ _ _ R r0 k L "" [] [] r
+                              (incl_refl _) agree_nil Es) as [h [p [Hin [El [Hp Hd]]]]].
+    simpl in El. exists h. split; auto. rewrite El. split; auto.
+    destruct Hd as [[-> _]|Hd]; auto.
+  - destruct (not_container_leaf' _ Ec) as [i [v ->]].
+    destruct (vwanted_leaf _ _ _ W) as [-> [Hv [Hn Hs]]].
+    exists (mkhit (root_slash sp "") [] HValue). rewrite (search_doc_leaf _ _ _ _ _ _ _ _ _ E), Hn, Hv, Hs. cbn.
+    split; [left; reflexivity|]. split; [exists []; reflexivity|]. left; reflexivity.
 Qed.
 
 Lemma vlocal_vjustified d h l0 r0 pre tgt :
@@ -56,24 +80,28 @@ Proof.
   - destruct L as [Hk [kn [P Hs]]]. split; auto. exists kn. split; [|apply satb_inv; auto].
     exists l0, r0, pre, tgt. auto.
   - destruct L as [Hv [s [P [Hl Hs]]]]. split; auto. exists s. split; [|split; [auto|apply satb_inv; auto]].
-    exists l0, r0, pre, tgt. auto.
+    left. exists l0, r0, pre, tgt. auto.
   - destruct L as [m [P Hs]]. exists m. split; [|apply satb_inv; auto]. exists l0, r0, pre, tgt. auto.
 Qed.
 
 (* no report for an excluded aliased repeat, a merged-in key, or anything beneath them *)
 Theorem alias_excluded d res :
   o_anchors o = false -> o_expand o = false -> names_consistent (anc_occs d) = true ->
-  exposed lit re_search tm mt o d [] = true ->
+  shared_closed mt o d [] = true ->
   search_doc lit re_search mt tm sp o d = Ok res ->
   forall h, In h res -> vjustified lit re_search tm mt o d h.
 Proof.
-  intros Ha Hx Hc G E h Hin. unfold search_doc in E.
-  destruct (search_for_paths lit re_search mt (scan_for_anchors d []) tm sp o d "" [] []) as [r| |] eqn:Es;
-    simpl in E; try discriminate. inversion E; subst; clear E.
-  destruct (sfp_visible lit re_search mt _ tm sp o Ha Hx (anc_occs d) Hc d [] "" [] [] r
-                        (incl_refl _) agree_nil covers_nil G Es) as [_ Hv].
-  destruct (Hv h Hin) as [l0 [r0 [pre' [tgt [El [R L]]]]]]. simpl in El.
-  eapply vlocal_vjustified; eauto.
+  intros Ha Hx Hc G E h Hin. destruct (is_container d) eqn:Ec.
+  - unfold search_doc in E.
+    destruct (search_for_paths lit re_search mt (scan_for_anchors d []) tm sp o d "" [] []) as [r| |] eqn:Es;
+      simpl in E; try discriminate. inversion E; subst; clear E.
+    destruct (sfp_visible lit re_search mt _ tm sp o Ha Hx (anc_occs d) Hc d [] "" [] [] r Ec
+                          (incl_refl _) agree_nil covers_nil G Es) as [_ Hv].
+    destruct (Hv h Hin) as [l0 [r0 [pre' [tgt [El [R L]]]]]]. simpl in El.
+    eapply vlocal_vjustified; eauto.
+  - destruct (not_container_leaf' _ Ec) as [i [v ->]].
+    destruct (leaf_hit_justified _ _ _ _ _ _ _ _ _ _ E Hin) as [-> [Hv [Hn Hs]]]. unfold vjustified. cbn [h_kind h_loc].
+    split; auto. exists (NLeaf i v). split; [right; repeat split; auto|]. split; [reflexivity|apply satb_inv; auto].
 Qed.
 
 (* a visible place is a place: vjustified implies justified *)
@@ -91,11 +119,12 @@ Proof.
   - intros [Hk [kn [[l0 [r0 [pre [tgt [El [R [i [kvs [pos [v [-> [-> [Hn _]]]]]]]]]]]]] Hs]]]. split; auto.
     exists kn. split; auto. exists l0, i, kvs, v. split; auto. split; [eapply vreach_reach; eauto|].
     eapply nth_error_In; eauto.
-  - intros [Hv [s [[l0 [r0 [pre [tgt [El [R P]]]]]] [Hl Hs]]]]. split; auto.
-    exists s. split; auto. exists l0, tgt, r0. split; auto. split; [eapply vreach_reach; eauto|]. split; auto.
-    destruct P as [[i [els [idx [-> [-> [Hn _]]]]]]|[i [kvs [pos [k [-> [-> [Hn _]]]]]]]].
-    + constructor; auto.
-    + constructor. eapply nth_error_In; eauto.
+  - intros [Hv [s [[[l0 [r0 [pre [tgt [El [R P]]]]]]|Hr] [Hl Hs]]]]; split; auto.
+    + exists s. split; auto. left. exists l0, tgt, r0. split; auto. split; [eapply vreach_reach; eauto|]. split; auto.
+      destruct P as [[i [els [idx [-> [-> [Hn _]]]]]]|[i [kvs [pos [k [-> [-> [Hn _]]]]]]]].
+      * constructor; auto.
+      * constructor. eapply nth_error_In; eauto.
+    + exists s. split; auto. right. exact Hr.
   - intros [m [[l0 [r0 [pre [tgt [El [R [i [els [j [-> [-> [Hn _]]]]]]]]]]]] Hs]].
     exists m. split; auto. exists l0, i, els. split; auto. split; [eapply vreach_reach; eauto|].
     eapply nth_error_In; eauto.
